@@ -68,6 +68,12 @@ def run(ctx):
         cases.append(case('p%d' % i, 'determ-policy', pol + [ann]))
     for i in range(120 if quick else 4000):
         cases.append(case('m%d' % i, 'determ-entities', g.store(), g.value(3)))
+    # entity uids that coincide under naive sort keys: Type + "::" + id, unquoted ids, ids with quotes and separators
+    tricky = [gen.vent('Doc', 'Team::alice'), gen.vent('Doc::Team', 'alice'), gen.vent('Doc', 'a"b'), gen.vent('Doc', 'a\\"b'), gen.vent('A::B', 'c'), gen.vent('A', 'B::c'),
+              gen.vent('A', 'B::"c'), gen.vent('A::B', '"c'), gen.vent('A', ''), gen.vent('A', '::'), gen.vent('A::', 'x')]
+    for i in range(30 if quick else 600):
+        ents = r.sample(tricky, r.randrange(2, len(tricky) + 1))
+        cases.append(case('k%d' % i, 'determ-entities', ['store'] + [['ent', e, ['parents'] + r.sample(ents, r.randrange(0, 3)), ['attrs'], ['tags']] for e in ents], gen.vset(ents)))
     ctx.rule = ('each case is run 40 times in one process with entity maps and policy sets rebuilt in shuffled insertion order: expression '
                 'evaluation (value or error MESSAGE), authorization (decision, set of reasons, set of errors incl. messages), policy-set / policy / '
                 'entity-map / value encoders (bytes), decode-then-encode from JSON and from text (bytes). Includes record literals with several '
